@@ -489,6 +489,16 @@ class Engine(Interp):
         for k, d in list(st.defs.items()):
             if k[0][0] == "L" and k[0][1] == uid:
                 vs.append(k)
+        if st.guards:
+            for fs in st.guards.values():
+                for f in fs:
+                    if f[0] == "iv":
+                        if f[1][0][0] == "L" and f[1][0][1] == uid:
+                            vs.append(f[1])
+                    elif f[0] in ("le", "eq"):
+                        for v in f[1].terms:
+                            if v[0][0] == "L" and v[0][1] == uid:
+                                vs.append(v)
         st.kill_vars(vs)
         dead = [k for k, d in st.defs.items() if any(v[0][0] == "L" and v[0][1] == uid for v in _defvars(d))]
         for k in dead:
@@ -633,6 +643,11 @@ class Engine(Interp):
         exits = {}
         base_tag = st_in.tag
 
+        sm = self.opt.get("merge_on_return", {})
+        strip_all = False
+        if body.path in sm:
+            callers = sm[body.path]
+            strip_all = callers is None or (frame.parent is not None and frame.parent.body.name in callers)
         live = self._liveness.get(body.key)
         if live is None:
             live = mirlib.body_liveness(body)
@@ -675,7 +690,9 @@ class Engine(Interp):
                 return
             visits[key] += 1
             w = visits[key] > WIDEN_AFTER and (bb in loops)
-            j = join_states(old, s, widen=w, thresholds=thresholds, templates=(bb in loops))
+            r0a, r0b = old.cells.get(frame.cell(0)), s.cells.get(frame.cell(0))
+            tmpl = (bb in loops) or (isinstance(r0a, Enum) and isinstance(r0b, Enum) and set(r0a.variants) != set(r0b.variants))
+            j = join_states(old, s, widen=w, thresholds=thresholds, templates=tmpl)
             j.tag = tag
             in_states[key] = j
             if key not in work:
@@ -716,9 +733,12 @@ class Engine(Interp):
                         self.edges[body.key].add((bb, "return"))
                         # strip this frame's loop tags
                         t2 = tuple(x for x in s2.tag if not (isinstance(x, tuple) and len(x) == 4 and x[0] in ("L", "it") and x[1] == frame.uid))
+                        if strip_all:
+                            n_uid = len(frame.uid)
+                            t2 = tuple(x for x in t2 if not (isinstance(x, tuple) and len(x) >= 2 and isinstance(x[1], tuple) and x[1][:n_uid] == frame.uid))
                         s2.tag = t2
                         old = exits.get(t2)
-                        exits[t2] = s2 if old is None else join_states(old, s2)
+                        exits[t2] = s2 if old is None else join_states(old, s2, templates=True)
                         if old is not None:
                             exits[t2].tag = t2
                     else:
